@@ -574,6 +574,7 @@ pub fn classify(c: &Case) -> Classes {
         .tag(has_c && has_rust, "both-libraries-in-one-process")
         .tag(c.programs.iter().flatten().any(|t| matches!(t, Task::Burst { .. })), "burst-task")
         .tag(c.programs.iter().filter(|p| p.iter().any(|t| matches!(t, Task::XofBurst { .. }))).count() >= 2, ">=2-threads-reading-xof-in-small-pieces")
+        .tag(c.programs.iter().filter(|p| p.iter().any(|t| matches!(t, Task::Hist(h) if h.ops.iter().any(|o| matches!(o, c02::Op::UpdateRayon(crate::hist::Size::Abs(n)) | c02::Op::UpdateMmapRayon(crate::hist::Size::Abs(n)) if *n > 1_000_000))))).count() >= 3, ">=3-threads-in-update_rayon-on->1MB")
         .tag(derive_bursts >= 2, ">=2-threads-bursting-derive_key")
         .tag(c.programs.iter().any(|p| matches!(p.first(), Some(Task::CHist(_)))), "first-call-is-C(detection-race)")
         .tag(c.programs.iter().filter(|p| p.iter().any(|t| matches!(t, Task::Hist(h) if matches!(h.ops.first().and_then(|o| o.absorbing()), Some(crate::hist::Size::Abs(n)) if *n > 1_048_576)))).count() >= 2, ">=2-threads-streaming->1MiB")
@@ -668,13 +669,30 @@ fn strategy(tier: Tier) -> BoxedStrategy<Case> {
     let readers = crate::gen::select(vec![2usize, 4, 8, 12, 16])
         .prop_flat_map(move |n| prop::collection::vec(prop::collection::vec(reader_task.clone(), 2..=3), n..=n))
         .prop_map(move |programs| Case { programs, repeats: reps });
-    prop_oneof![6 => mixed, 1 => streams, 1 => readers].boxed()
+    // an odd number of threads inside update_rayon / update_mmap_rayon at the same time, each on megabytes of its own input
+    let rayon_task = (gen::mode4(), gen::content(), (1_200_000u32..=6_500_000), any::<bool>(), 0u32..=5000).prop_map(|(mode, content, len, mm, pre)| {
+        use crate::hist::Size;
+        use c02::Op;
+        let s = Size::Abs(len);
+        let op = if !cfg!(feature = "full") {
+            Op::Update(s)
+        } else if mm {
+            Op::UpdateMmapRayon(s)
+        } else {
+            Op::UpdateRayon(s)
+        };
+        Task::Hist(c02::History { mode, content, budget: 7_000_000, ops: vec![Op::Update(Size::Abs(pre)), op, Op::Finalize] })
+    });
+    let rayon_callers = crate::gen::select(vec![3usize, 3, 5, 6, 7, 12])
+        .prop_flat_map(move |n| prop::collection::vec(prop::collection::vec(rayon_task.clone(), 1..=2), n..=n))
+        .prop_map(move |programs| Case { programs, repeats: core::cmp::max(3, reps / 4) });
+    prop_oneof![12 => mixed, 2 => streams, 2 => readers, 2 => rayon_callers].boxed()
 }
 
 pub fn subs() -> Vec<Box<dyn DynSub>> {
     vec![Box::new(PropSub::<Case> {
         name: "threads-fresh-process",
-        rule: "proptest: T in {2,4,8,16,32} threads, each with its own program of 1-3 tasks on its own instances (C01 one-shots, C02 histories incl. update_rayon/mmap, C03 XOF-reader histories, C06 histories on C hashers of both library builds with CPU detection left to race, bursts of 50-400 construct-update-finalize rounds in every mode on either library, extended-output readers consumed in 100-1500 small pieces through fill / io::Read / read_exact / the XofReader trait, and long streams of 60 KiB-3 MiB through update_reader/io::copy/update_mmap(_rayon)/update_rayon/write_all; one case in eight has every thread streaming at once, one in eight every thread reading extended output in small pieces at once), started together by a barrier in a FRESH child process and repeated 12x (quick) / 40x (thorough); oracle: every output of every thread equals the spec model (what the program yields alone) and the process exits cleanly; non-trivial = >=2 threads whose programs both hash > 16 chunks",
+        rule: "proptest: T in {2,4,8,16,32} threads, each with its own program of 1-3 tasks on its own instances (C01 one-shots, C02 histories incl. update_rayon/mmap, C03 XOF-reader histories, C06 histories on C hashers of both library builds with CPU detection left to race, bursts of 50-400 construct-update-finalize rounds in every mode on either library, extended-output readers consumed in 100-1500 small pieces through fill / io::Read / read_exact / the XofReader trait, and long streams of 60 KiB-3 MiB through update_reader/io::copy/update_mmap(_rayon)/update_rayon/write_all; one case in eight has every thread streaming at once, one in eight every thread reading extended output in small pieces at once, one in nine 3-12 threads all inside update_rayon / update_mmap_rayon on 1.2-6.5 MB each), started together by a barrier in a FRESH child process and repeated 12x (quick) / 40x (thorough); oracle: every output of every thread equals the spec model (what the program yields alone) and the process exits cleanly; non-trivial = >=2 threads whose programs both hash > 16 chunks",
         cases: (320, 4_000),
         strategy,
         classify,
